@@ -82,10 +82,10 @@ func refDecompress(codec int, comp []byte) (plain []byte, err error) {
 
 type wbuf struct{ b []byte }
 
-func (w *wbuf) i8(v int8)   { w.b = append(w.b, byte(v)) }
-func (w *wbuf) i16(v int16) { w.b = binary.BigEndian.AppendUint16(w.b, uint16(v)) }
-func (w *wbuf) i32(v int32) { w.b = binary.BigEndian.AppendUint32(w.b, uint32(v)) }
-func (w *wbuf) i64(v int64) { w.b = binary.BigEndian.AppendUint64(w.b, uint64(v)) }
+func (w *wbuf) i8(v int8)    { w.b = append(w.b, byte(v)) }
+func (w *wbuf) i16(v int16)  { w.b = binary.BigEndian.AppendUint16(w.b, uint16(v)) }
+func (w *wbuf) i32(v int32)  { w.b = binary.BigEndian.AppendUint32(w.b, uint32(v)) }
+func (w *wbuf) i64(v int64)  { w.b = binary.BigEndian.AppendUint64(w.b, uint64(v)) }
 func (w *wbuf) raw(p []byte) { w.b = append(w.b, p...) }
 
 // varint: zig-zag, then base 128 little-endian groups with continuation bit.
